@@ -287,3 +287,15 @@ M2('c04-find-handler-remembers-matched-class', 'C04', 'R2', [
                 return handler
         return None
 """}], also=('C19',))
+
+# ---- wave 4
+M('c04-default-handler-formats-exception-object', 'C04', 'R5', 'falcon/app.py',
+  """        req.log_error(traceback.format_exc())
+        self._compose_error_response(req, resp, HTTPInternalServerError())
+""", """        req.log_error('%s\\n%s' % (error, traceback.format_exc()))
+        self._compose_error_response(req, resp, HTTPInternalServerError())
+""")
+M('c04-asgi-default-handler-fstring-exception-object', 'C04', 'R5', 'falcon/asgi/app.py',
+  """        req.log_error(traceback.format_exc())
+""", """        req.log_error(f'{error}: ' + traceback.format_exc())
+""")
